@@ -18,8 +18,8 @@
 
    Excluded by `clean` (and said so in the theorems): (1) a pair creation refused AFTER a temporary exists (second
    cmd_new refused or receiver refuses the half): the known defect C11:epr-temporaries, refuted in EprGate.v;
-   (2) binding a created / received half to a virtual address that is not free in the application's unit module
-   (the code then keeps the response pending and retries; the model does not describe that);
+   (2) binding a created / received half to a virtual address that is not a free address of the application's unit module
+   (address in use: the code keeps the response pending and retries; no such address: it raises; the model describes neither);
    (3) as in Teardown.v: initialising an application id that still has a unit module. *)
 From Coq Require Import List Bool Arith Lia.
 From SQ Require Import Base.ListUtil Stab.Tableau Net.Model Net.Refusal Net.Handles Net.Inv Net.InvNew Net.InvStep
@@ -53,7 +53,8 @@ Definition addr_free (h : host) (app a : nat) : option (list (option nat)) :=
 Definition map_addr (h : host) (app a qid : nat) : host :=
   match addr_free h app a with
   | Some um => with_units (with_used h (insert_sorted qid (h_used h))) (aset app (upd um a (Some qid)) (h_units h))
-  | None => h          (* address in use / no such address: response stays pending (excluded by `clean`) *)
+  | None => h          (* address in use: the response stays pending and is retried; no such address / unit module:
+                          _allocate_physical_qubit raises -- neither is modelled, both are excluded by `clean` *)
   end.
 (* popleft of the deque of (node i, socket sock) *)
 Fixpoint take_pend (i sock : nat) (pd : list pentry) : option (nat * nat * list pentry) :=
